@@ -282,6 +282,7 @@ class NeedDecision(Exception):
 class State:
     def __init__(self):
         self.vars, self.heap, self.pc, self.ghost = {}, {}, [], {}
+        self.assumed = set()     # ids of path-condition entries that are assumed obligations (only valid on this path)
         self.obl = []            # shared list (not copied): (kind, label, hyps, goal, lineno, trace)
         self.trace = []          # branch decisions, for reporting
         self.decisions, self.dpos = [], 0
@@ -297,6 +298,7 @@ class State:
         t.trace = list(self.trace)
         t.decisions, t.dpos = list(self.decisions), self.dpos
         t.next_oid = self.next_oid
+        t.assumed = set(self.assumed)
         return t
 
     def alloc(self, obj):
@@ -401,6 +403,7 @@ class Exec:
             st.obl.append((kind, label, list(st.pc), goal, getattr(node, 'lineno', 0), list(st.trace)))
         if assume:
             st.pc.append(goal)
+            st.assumed.add(goal.get_id())
 
     def feasible(self, st, cond):
         if not self.prune:
@@ -972,9 +975,11 @@ class Exec:
 
     def assign(self, t, v, st, aug=False):
         if isinstance(t, ast.Name):
-            if t.id in self.type_hints and isinstance(v, VRef) and isinstance(st.heap.get(v.oid), VList) \
-                    and not st.heap[v.oid].items:
+            if t.id in self.type_hints and isinstance(v, VRef) and isinstance(st.heap.get(v.oid), VList):
+                items = st.heap[v.oid].items
                 v = self.models.empty_seq(self, st, self.type_hints[t.id])
+                for it_ in items:                 # `x = [a, b]` for a list that grows later: symbolic sequence from the start
+                    self.models.method(self, st, v, 'append', [it_], {}, t)
             st.vars[t.id] = v
             return
         if isinstance(t, (ast.Tuple, ast.List)):
